@@ -59,6 +59,28 @@ def ev_inv(prefix):
     return [e.replace("self.", prefix + ".") for e in EV_INV]
 
 
+# the constructor: the option string is normalised (any capitalisation of
+# 'logt' / 't' is accepted and STORED lower-cased: increment compares the
+# stored string with 'logt' exactly) and the integrator's invariant holds
+contract(
+    EV, "_NSIntegralState.__init__", props=["C02", "C05"], log_domain=True,
+    params={"nlive": "Int", "track_gradients": "Bool",
+            "expectation": "Str"},
+    requires=["nlive >= 1"],
+    raises={"ValueError": "lower(expectation) != 'logt' and "
+            "lower(expectation) != 't'"},
+    modifies=["self." + f for f in (
+        "base_nlive", "track_gradients", "expectation", "logZ", "oldZ",
+        "logw", "info", "logLs", "log_vols", "nlive", "gradients")],
+    ensures=EV_INV + [
+        "self.expectation == lower(expectation)",
+        "self.base_nlive == nlive",
+        "len(self.logLs) == 1 and self.logLs[0] == -INF",
+        "self.logZ == -INF and self.logw == 0",
+        "len(self.nlive) == 0",
+    ],
+)
+
 NN = "(old(self.base_nlive) if nlive is None else nlive)"
 SHRINK = (f"(E(-1.0 / {NN}) if old(self.expectation) == 'logt' "
           f"else 1 / (1 + 1 / real({NN})))")
@@ -166,10 +188,10 @@ CW_COMMON = [
     f"{LL}[0] == -INF and {LL}[len(samples) + 1] == samples[len(samples) - 1]",
     f"forall(i, 1, len(samples) + 1, {LL}[i] == samples[i - 1])",
     f"{LV}[0] == 0 and {LV}[len(samples) + 1] == -INF",
-    f"E({LV}[1]) == (E(-1.0 / {NPI}[0]) if expectation == 'logt' else "
+    f"E({LV}[1]) == (E(-1.0 / {NPI}[0]) if lower(expectation) == 'logt' else "
     f"1 / (1 + 1 / {NPI}[0]))",
     f"forall(k, 1, len(samples), E({LV}[k + 1]) == E({LV}[k]) * "
-    f"(E(-1.0 / {NPI}[k]) if expectation == 'logt' else "
+    f"(E(-1.0 / {NPI}[k]) if lower(expectation) == 'logt' else "
     f"1 / (1 + 1 / {NPI}[k])))",
     # trapezoidal evidence and rectangle posterior weights
     "E(result[0]) == " + TRAP.format(f=LL, s=LV),
@@ -191,7 +213,8 @@ contract(
     params={"samples": "Seq(Real)", "nlive": "Int", "expectation": "Str"},
     requires=["nlive >= 1", "len(samples) >= nlive"],
     returns="Tuple(Real,Seq(Real))",
-    raises={"ValueError": "expectation != 'logt' and expectation != 't'"},
+    raises={"ValueError": "lower(expectation) != 'logt' and "
+            "lower(expectation) != 't'"},
     ensures=CW_COMMON + [
         # the live-count schedule: constant, then nlive, nlive-1, ..., 1
         f"forall(i, 0, len(samples) - nlive, {NPI}[i] == nlive)",
@@ -211,7 +234,7 @@ contract(
               "forall(i, 0, len(nlive), nlive[i] >= 1)"],
     returns="Tuple(Real,Seq(Real))",
     raises={"ValueError": "len(nlive) != len(samples) or "
-            "(expectation != 'logt' and expectation != 't')"},
+            "(lower(expectation) != 'logt' and lower(expectation) != 't')"},
     ensures=CW_COMMON + [
         f"forall(i, 0, len(samples), {NPI}[i] == nlive[i])",
     ],
@@ -226,7 +249,7 @@ contract(
               "forall(i, 0, len(nlive), nlive[i] >= 1)"],
     returns="Tuple(Real,Seq(Real))",
     raises={"ValueError": "len(nlive) != len(samples) or "
-            "(expectation != 'logt' and expectation != 't')"},
+            "(lower(expectation) != 'logt' and lower(expectation) != 't')"},
     ensures=CW_COMMON + [
         f"forall(i, 0, len(samples), {NPI}[i] == nlive[i])",
     ],
